@@ -445,6 +445,8 @@ class LinComb:
         Costs 9 * bitlength + 5 constraints shift by a LinComb number of bits
         """
         if isinstance(other, int):
+            if other < 0:
+                raise ValueError("negative shift count")
             bits = self.to_bits()
             wanted_bits = bits[other:]
             return LinComb.from_bits(wanted_bits)
